@@ -27,3 +27,23 @@ def boolOf (s : String) : Option Bool :=
 def showB (b : Bool) : String := if b then "t" else "f"
 
 end Driver
+
+namespace Driver
+
+def tokens (line : String) : List String :=
+  (line.trimAscii.toString.splitOn " ").filter (· ≠ "")
+
+/-- generic line loop over a model state: one line in, one line out (flushed) -/
+partial def runLoop {σ : Type} (step : σ → List String → σ × String) (s : σ) : IO Unit := do
+  let hin ← IO.getStdin
+  let hout ← IO.getStdout
+  let rec go (s : σ) : IO Unit := do
+    let line ← hin.getLine
+    if line.isEmpty then return ()
+    let (s', out) := step s (tokens line)
+    hout.putStrLn out
+    hout.flush
+    go s'
+  go s
+
+end Driver
